@@ -68,7 +68,7 @@ CHECKS = {
    text="histories migrate(v1) -> insert rows -> migrate(v1) -> migrate(v2) -> read old rows through v2, insert and read v2 records -> migrate(v2) again, with v1 = key x field kind x tag variant {none,index,uniqueIndex,unique,check,not null,size…} and v2 = v1 + {tag added to a field, added field of every kind x tag}; oracle: the driver log of a re-migration holds no statement starting with CREATE/ALTER/DROP, typed dumps of the common columns are equal before/after, added indexes/unique constraints exist (PRAGMA index_list), added checks are enforced, v2 records round-trip (C03 field oracle)",
    note="SQLite dialect only; tag combinations whose spurious ALTER is caused by the SQLite driver's column parsing (parenthesised DB-side defaults) or refused by SQLite itself are removed from the alphabet and listed in the evidence; 1 open known finding"),
  "C14": dict(cat="model_checking", engine="E2-scheduler", tech=TECH_SCHED,
-   text="the real prepare_stmt.go/gorm.go (instrumented at build time by overlay: sync -> scheduling shim, go/channel statements hooked) is explored under a cooperative scheduler: every interleaving of 2 threads (<=2-3 preemptions quick, <=4 thorough), 3 threads (<=2/3) and 4 threads (<=2, thorough) of Exec/Query/Transaction/Reset/Close/first-use-Session programs, with Prepare failures and ErrBadConn as environment choices; oracle per schedule: no deadlock/panic, results equal the sequential run, <=1 cache-level prepare per text and generation, no leaked driver statement after the final Close",
+   text="the real prepare_stmt.go/gorm.go (instrumented at build time by overlay: sync -> scheduling shim, go/channel statements hooked) is explored under a cooperative scheduler: every interleaving of 2 threads (<=2-3 preemptions quick, <=3-4 thorough), 3 threads (<=2) and 4 threads (<=1, thorough) of Exec/Query/Transaction/Reset/Close/first-use-Session programs, with Prepare failures and ErrBadConn as environment choices; oracle per schedule: no deadlock/panic, results equal the sequential run, <=1 cache-level prepare per text and generation, no leaked driver statement after the final Close",
    note="database/sql and the fake driver are atomic steps; statement.go's per-statement sync.Map is not a scheduling point; data races are not decided by this check (see C07)"),
 }
 
